@@ -665,6 +665,10 @@ pub fn compare_opts<'m, 'a>(input: &'m DModule<'a>, output: &'m DModule<'a>, kee
     // functions by body shape: exact shape first, then a loose shape (memory immediates ignored) so that a
     // corrupted immediate is reported as such by the body comparison and not as a dropped function
     let mut given_up: std::collections::HashSet<u32> = std::collections::HashSet::new();
+    // shapes are a function of the module alone: computed once per function and kind (many equal unreferenced
+    // functions would otherwise make this pairing quadratic in body hashing)
+    let mut shape_cache: HashMap<(bool, u32, bool), u64> = HashMap::new();
+    let mut shape_of = |m: &DModule, is_out: bool, f: u32, loose: bool, sm: bool| -> u64 { *shape_cache.entry((is_out, f, loose)).or_insert_with(|| body_shape(m, f, loose, sm)) };
     loop {
         let ua: Vec<u32> = (0..input.funcs.len() as u32)
             .filter(|i| c.iso.funcs.get(*i).is_none() && !given_up.contains(i) && kept(keep.map(|k| &k.funcs), *i as usize))
@@ -676,11 +680,11 @@ pub fn compare_opts<'m, 'a>(input: &'m DModule<'a>, output: &'m DModule<'a>, kee
         let x = ua[0];
         let same_kind = |y: &&u32| input.funcs[x as usize].import.is_some() == output.funcs[**y as usize].import.is_some();
         let sm = c.opts.skip_output_markers;
-        let hx = body_shape(input, x, false, sm);
-        let mut found = ub.iter().filter(same_kind).find(|y| body_shape(output, **y, false, sm) == hx).copied();
+        let hx = shape_of(input, false, x, false, sm);
+        let mut found = ub.iter().filter(same_kind).find(|y| shape_of(output, true, **y, false, sm) == hx).copied();
         if found.is_none() {
-            let lx = body_shape(input, x, true, sm);
-            found = ub.iter().filter(same_kind).find(|y| body_shape(output, **y, true, sm) == lx).copied();
+            let lx = shape_of(input, false, x, true, sm);
+            found = ub.iter().filter(same_kind).find(|y| shape_of(output, true, **y, true, sm) == lx).copied();
         }
         match found {
             Some(y) => {
